@@ -311,14 +311,14 @@ def run(ctx):
     for fid in sorted(reach):
         fn = cg.funcs[fid]
         mod = cg.mod_of[fid]
-        texts = [norm(n)[:70] for n in walk_no_nested(fn) if isinstance(n, (ast.Raise, ast.Assert))]
+        texts = [anorm(n, fn)[:70] for n in walk_no_nested(fn) if isinstance(n, (ast.Raise, ast.Assert))]
         ordinal = {}
         for node in walk_no_nested(fn):
             if not isinstance(node, (ast.Raise, ast.Assert)):
                 continue
             n_r += 1
             key = '%s.%s:%s' % (fid[0], fid[1], anorm(node, fn)[:70])
-            if texts.count(norm(node)[:70]) > 1:
+            if texts.count(anorm(node, fn)[:70]) > 1:
                 ordinal[key] = ordinal.get(key, 0) + 1
                 key += '#%d' % ordinal[key]
             reason = rtab.get(key)
